@@ -5,7 +5,8 @@ _PUBLIC = {"methods": ["*"], "except": ["Init", "StatsJSON"], "lock": "mu", "mod
 CFG = {
     "check": "C04_Check",
     "props": ["C04_Props"],
-    "chunk": 60,
+    "chunk": 100,
+    "search_timeout": 300,
     "level_text": (
         "Theorems in Coq for every history (list of Get/Peek/Exist/Set/SetAndGetRemoved/SetIfAbsent/Delete/Clear/SetCapacity of any length, "
         "arbitrary keys, item sizes and capacities in [0, 2^62-1]): the machine-level models of cache.LRUCache (int64 running size, "
@@ -34,7 +35,11 @@ CFG = {
         "constructor's capacity and a non-decreasing eviction counter - c04_uniform_size), first touches (batches of 1500 trials, each on a "
         "NEW wide cache of 2..211 shards: 4-12 goroutines behind a spin barrier each issue one Set of its own key - most keys in one shard - "
         "or one read; every shard can hold what is Set into it; after all returned exactly the Set keys must be present with their values - "
-        "c04_wide_first_touch; the batch is reported as run-length encoded presence masks, all evaluated in Coq), and an out-of-domain stream (negative sizes/capacities -> panic, sizes near 2^63 -> int64 wrap). "
+        "c04_wide_first_touch; the batch is reported as run-length encoded presence masks, all evaluated in Coq), own-key churn (6-16 writer "
+        "goroutines from a spin barrier each repeating 30-80 times a short cycle of Set/SetAndGetRemoved/SetIfAbsent/Delete/reads on keys "
+        "no other goroutine writes, sizes 1-4, plus reader goroutines, on a single cache or wide facade that can hold everything; at "
+        "quiescence the key->value map, Length, Size and Evictions = 0 must be those of the programs run one after the other - "
+        "c04_churn_key_local, c04_churn_interleaving_independent), and an out-of-domain stream (negative sizes/capacities -> panic, sizes near 2^63 -> int64 wrap). "
         "Proof is the right level: the claim is equality with an ideal LRU on every history; tests reach a dozen scenarios."
     ),
     "level_note": (
@@ -43,7 +48,10 @@ CFG = {
         "linearisation that Coq re-checks); the lock-discipline lint for the concurrent clause (every exported method of both LRUCache types "
         "is one critical section, so a concurrent execution is one of the histories the theorems quantify over; Init and StatsJSON are not "
         "covered: Init is the constructor's unsynchronised initialiser, StatsJSON is a formatting wrapper around Stats). case_sound is proved "
-        "through the refinement theorems (not by defining accept as matches && holds), except for burst cases (CBurst, CSia, CRem, CStat, CFirst): a burst has no single model "
+        "through the refinement theorems (not by defining accept as matches && holds), except for burst cases (CBurst, CSia, CRem, CStat, CFirst, CChurn) and CHung (a call that did not return within 20 s without any "
+        "other call completing: never accepted; a violation inside the domain, where c04_no_panic says every call returns; every unit of the "
+        "harness runs under that watchdog, a class is given up after its first blocked call and the run after six, and the violation search "
+        "uses 4x the quick volume, so that a broken implementation cannot stall the check): a burst has no single model "
         "run to compare with, so there case_accept = case_holds = the monitor; for CSia the monitor is the per-key reading of "
         "c04_sia_every_linearisation (every linearisation is a first-insert-wins map that never replaces a present key); for CRem it is the multiset reading of c04_rem_every_linearisation plus 'a kept list never changes' (the model is "
         "value-semantic; Go slice aliasing is outside the model and is observed directly); for CBurst it is "
@@ -59,7 +67,7 @@ CFG = {
     "rule": (
         "one case = one generated history run on a fresh real cache. Sequential: non-trivial when at least one Get/Peek hit and at least one "
         "eviction occurred; wide: non-trivial when a Set made the number of present keys not grow while keys were present (a shard evicted); "
-        "concurrent: non-trivial when >= 2 goroutines ran and at least one eviction occurred; burst: non-trivial when >= 2 goroutines ran and at least one key is present at quiescence; SetIfAbsent-only burst: non-trivial when >= 2 goroutines ran; concurrent SetAndGetRemoved: non-trivial when >= 2 goroutines ran and something was evicted; Stats readers: non-trivial when more than one distinct answer was kept; first-touch batch: non-trivial when >= 2 goroutines ran (one case = one batch of trials). distinct = distinct Coq case terms"
+        "concurrent: non-trivial when >= 2 goroutines ran and at least one eviction occurred; burst: non-trivial when >= 2 goroutines ran and at least one key is present at quiescence; SetIfAbsent-only burst: non-trivial when >= 2 goroutines ran; concurrent SetAndGetRemoved: non-trivial when >= 2 goroutines ran and something was evicted; Stats readers: non-trivial when more than one distinct answer was kept; first-touch batch: non-trivial when >= 2 goroutines ran (one case = one batch of trials); churn: non-trivial when >= 2 goroutines ran. distinct = distinct Coq case terms"
     ),
     "trusted": [
         "Go harness c04: adapters over cache.LRUCache / tiny.LRUCache / the four wide constructors, recover wrappers, atomic tick stamping of concurrent calls",
